@@ -236,6 +236,35 @@ func runC03(r *core.Run) {
 				worst[s.Name] = w
 			}
 		}
+		// gamut-boundary lattice: components a hair below 0 / above 1 (a clamp or a "flush
+		// rounding noise" shortcut acts exactly here), and exact greys
+		{
+			bv := []float32{-1e-2, -1e-3, -1e-4, -1e-5, -3e-6, -1e-6, -1e-7, 0, 1e-7, 1e-6, 1e-5, 1e-3, 0.25, 0.5, 1 - 1e-5, 1 - 1e-7, 1, 1 + 1e-7, 1 + 1e-5, 1 + 1e-3, 1.5}
+			var nb int64
+			for _, a := range bv {
+				for _, b := range bv {
+					for _, c := range bv {
+						in := [3]float32{a, b, c}
+						kind, msg, _ := c03Point(s, &p, in)
+						nb++
+						if kind != "" {
+							r.Violate("point", s.Name+"/"+kind, msg, c03Case{s.Name, kind, in})
+						}
+					}
+				}
+			}
+			for g := 0; g <= 4096; g++ {
+				v := float32(g) / 4096
+				in := [3]float32{v, v, v}
+				kind, msg, _ := c03Point(s, &p, in)
+				nb++
+				if kind != "" {
+					r.Violate("point", s.Name+"/"+kind, msg, c03Case{s.Name, kind, in})
+				}
+			}
+			r.AddEvals(nb * 4)
+			r.NTCount(nb - 1)
+		}
 		// random out-of-range triples
 		shards := 16
 		res2 := make([]float64, shards)
